@@ -325,7 +325,7 @@ func genLookup(t *Tracer, m *Meta, prop, tier string, seed int64) {
 	// (1) exhaustive universes: a seed-rotated slice (quick) or a larger one
 	budgetU := 1200
 	if !quick {
-		budgetU = 40000
+		budgetU = 16000
 	}
 	for ui, u := range universes {
 		strs := u.Strings()
@@ -367,7 +367,7 @@ func genLookup(t *Tracer, m *Meta, prop, tier string, seed int64) {
 	nMed := 24
 	maxN := 600
 	if !quick {
-		nMed = 120 // x 2 option combinations; a 2000-key trie costs TLC about a minute
+		nMed = 80 // x 2 option combinations; a 2000-key trie costs TLC about a minute
 		maxN = 2000
 	}
 	for i := 0; i < nMed; i++ {
